@@ -19,6 +19,10 @@ class InjectedFault(Exception):
     """Raised on purpose by a responder function of the workload."""
 
 
+class DecoratorResult(Exception):
+    """@oscfunc(...) returned something that is not an OscFunc."""
+
+
 class InjectedValueError(InjectedFault, ValueError):
     pass
 
@@ -26,6 +30,8 @@ class InjectedValueError(InjectedFault, ValueError):
 class InjectedKeyError(InjectedFault, KeyError):
     pass
 
+
+STATUS_REPLY = '/status.reply'
 
 FAULTS = {'Exception': InjectedFault, 'ValueError': InjectedValueError,
           'KeyError': InjectedKeyError}
@@ -53,6 +59,9 @@ class HistoryRunner:
             self.src_pool = [(ip, rng.choice([p, None])) for ip, p in gen.SENDERS]
             self.ports = [rig.itf.port] + list(ports)
         self.objs = {}
+        self.disps = {}          # (kind, n) -> dispatcher instance of this history
+        self.trace = None        # None | 'show' | 'hide'  (OscFunc.trace)
+        self.server_addr = rig.server_addr
         self.real_fver = {}
         self.real_freed = set()
         self.armed = {}          # holder rid -> op
@@ -66,9 +75,14 @@ class HistoryRunner:
         base = rng.choice(gen.HIST_PATHS)
         self.paths = sorted(set([base] + gen.related_paths(rng, base)
                                 + rng.sample(gen.HIST_PATHS, 3)))
+        if rng.random() < 0.3:
+            self.paths.append(STATUS_REPLY)     # what trace(hide_status=True) hides
         rig.on_invoke = self._on_invoke
 
     # ------------------------------------------------------------ real side
+    def make_cb(self, rid, ver, nparams):
+        return self.rig.make_cb(rid, ver, nparams)
+
     def _new_spec(self):
         rng = self.rng
         live = [r for r in self.model.resps.values() if not r.freed]
@@ -85,6 +99,10 @@ class HistoryRunner:
                 'nparams': rng.choice([4, 4, 4, 'var', 3, 2, 1])}
         if rng.random() < 0.1:
             spec['path_arg'] = path[1:]     # documented: a leading '/' is added
+        if rng.random() < 0.2:
+            spec['disp'] = 1                # documented constructor parameter
+        if rng.random() < 0.25:
+            spec['via'] = 'decorator'       # @oscfunc(path, matching=..., **kwargs)
         if rng.random() < 0.22:
             # fault sequence: the function raises on its k-th invocation(s)
             spec['raises'] = [rng.choice([[1], [1], [2], [1, 2], [1, 3], list(range(1, 40))]),
@@ -99,17 +117,64 @@ class HistoryRunner:
         if spec.get('raises'):
             self.fault_plan[rid] = (set(spec['raises'][0]), spec['raises'][1])
         src = NetAddr(spec['src'][0], spec['src'][1]) if spec['src'] else None
-        ctor = OscFunc.matching if spec['kind'] == 'match' else OscFunc
         self.real_fver[rid] = 0
-        self.objs[rid] = ctor(self.rig.make_cb(rid, 0, spec['nparams']),
-                              spec.get('path_arg', spec['path']),
-                              src, spec['recv_port'],
-                              arg_template=real_template(spec['template']))
+        cb = self.make_cb(rid, 0, spec['nparams'])
+        path = spec.get('path_arg', spec['path'])
+        tmpl = real_template(spec['template'])
+        disp = None
+        if spec.get('disp'):
+            disp = self._dispatcher(spec['kind'], spec['disp'])
+        if spec.get('via') == 'decorator':
+            from sc3.base.responders import oscfunc
+            if self.rng.random() < 0.05:
+                # @oscfunc without its path argument (documented misuse):
+                # observed only, it must not leave a responder behind (the
+                # listings and the dispatch model would notice one)
+                try:
+                    oscfunc(cb)
+                    self.acc.count('observed_decorator_without_path/returned')
+                except ValueError:
+                    self.acc.count('observed_decorator_without_path/raises-ValueError')
+            kw = {}
+            if src is not None or self.rng.random() < 0.5:
+                kw['src_id'] = src
+            if spec['recv_port'] is not None or self.rng.random() < 0.5:
+                kw['recv_port'] = spec['recv_port']
+            if tmpl is not None or self.rng.random() < 0.5:
+                kw['arg_template'] = tmpl
+            if disp is not None:
+                obj = oscfunc(path, dispatcher=disp, **kw)(cb)
+            elif spec['kind'] == 'match':
+                obj = oscfunc(path, matching=True, **kw)(cb)
+            else:
+                obj = oscfunc(path, **kw)(cb)
+            if type(obj) is not OscFunc:
+                raise DecoratorResult(type(obj).__name__)
+            self.acc.count('created_via_decorator')
+        elif disp is not None:
+            obj = OscFunc(cb, path, src, spec['recv_port'], arg_template=tmpl,
+                          dispatcher=disp)
+        else:
+            ctor = OscFunc.matching if spec['kind'] == 'match' else OscFunc
+            obj = ctor(cb, path, src, spec['recv_port'], arg_template=tmpl)
+        if disp is not None:
+            self.acc.count('created_on_dispatcher_instance')
+        self.objs[rid] = obj
         self.objs[rid]._vf_nparams = spec['nparams']
+
+    def _dispatcher(self, kind, n):
+        d = self.disps.get((kind, n))
+        if d is None:
+            from sc3.base import responders as rpd
+            d = (rpd.OscMessagePatternDispatcher if kind == 'match'
+                 else rpd.OscMessageDispatcher)()
+            self.disps[(kind, n)] = d
+        return d
 
     def _model_create(self, spec):
         self.model.create(spec['kind'], spec['path'], spec['src'],
-                          spec['recv_port'], spec['template'], rid=spec['rid'])
+                          spec['recv_port'], spec['template'], rid=spec['rid'],
+                          disp=spec.get('disp', 0))
 
     def _real_op(self, op):
         """Performs op on the real objects if it is applicable *now* (judged
@@ -120,7 +185,32 @@ class HistoryRunner:
             return True
         if name == 'cmd_period':
             from sc3.base.systemactions import CmdPeriod
-            CmdPeriod.run()
+            if len(op) > 1 and op[1] == 'hard':
+                CmdPeriod.hard_run()
+                # hard_run() re-initialises the node tree of every local server
+                # in a routine on AppClock, which registers a '/synced'
+                # responder of the library: wait until that has happened
+                if not self.rig.wait_sink(b'/sync', 3.0):
+                    self.acc.count('hard_run_sync_not_seen')
+            else:
+                CmdPeriod.run()
+            return True
+        if name == 'trace':
+            from sc3.base.responders import OscFunc
+            OscFunc.trace(op[1], op[2])
+            return True
+        if name == 'disp_free':
+            d = self.disps.get(op[1])
+            if d is None or d.wrapped_funcs:
+                return False
+            # outside the statement (internal interface): observed only;
+            # what IS judged is that nothing else is disturbed and that
+            # responders created on it afterwards fire
+            try:
+                d.free()
+                self.acc.count('observed_dispatcher_free/returned')
+            except Exception as e:
+                self.acc.count('observed_dispatcher_free/raises-' + exc_name(e))
             return True
         if name == 'other_registry_run':
             # running another system registry is none of the responders' business
@@ -153,7 +243,7 @@ class HistoryRunner:
             if freed:
                 return False
             self.real_fver[rid] += 1
-            obj.func = self.rig.make_cb(rid, self.real_fver[rid], obj._vf_nparams)
+            obj.func = self.make_cb(rid, self.real_fver[rid], obj._vf_nparams)
         elif name == 'set_perm':
             if freed:
                 return False
@@ -175,6 +265,12 @@ class HistoryRunner:
                 if r.enabled and not r.permanent:
                     self.real_freed.add(r.rid)
             m.cmd_period()
+            if self.trace is not None:
+                self.trace = 'open'  # (the library ends tracing; not documented)
+        elif name == 'trace':
+            self.trace = ('hide' if op[2] else 'show') if op[1] else None
+        elif name == 'disp_free':
+            pass
         elif name == 'set_perm':
             m.set_permanent(op[1], op[2])
         elif name == 'set_func':
@@ -221,9 +317,10 @@ class HistoryRunner:
                            tb=short_tb(e))
         if done:
             self._model_op(op)
-            if op[0] != 'create':
+            if op[0] not in ('create', 'trace', 'disp_free'):
                 self.feat['state_ops'] += 1
-            self.acc.count('hist_op/' + op[0])
+            self.acc.count('hist_op/' + op[0] + ('-hard' if op[0] == 'cmd_period'
+                                                  and len(op) > 1 else ''))
         self.check_enabled_flags('after-' + op[0])
 
     def check_enabled_flags(self, when):
@@ -248,6 +345,48 @@ class HistoryRunner:
             self.violation(f'C18/enabled-flag-differs/{when}', rid=rid,
                            library=bool(obj.enabled), model=bool(r.enabled))
         self.acc.count('enabled_flag_checks')
+        self.check_listings(when)
+
+    def check_listings(self, when):
+        """The class-level listings (all / enabled / disabled responders by
+        dispatcher type) restricted to this history's responders must agree
+        with the model: free() takes a responder off the lists, disable()
+        moves it to the disabled ones."""
+        from sc3.base.responders import OscFunc
+        mine = {id(o): rid for rid, o in self.objs.items()}
+
+        def ids(d):
+            out = {}
+            for key, lst in d.items():
+                got = sorted(mine[id(x)] for x in lst if id(x) in mine)
+                if got:
+                    out[key] = got
+            return out
+        try:
+            en, dis = ids(OscFunc._all_enabled()), ids(OscFunc._all_disabled())
+            allp = sorted(mine[id(x)] for x in list(OscFunc._all_func_proxies)
+                          if id(x) in mine)
+        except Exception as e:
+            sites = tb_sites(e)
+            self.violation(f'C18/listing/raises/{exc_name(e)}/'
+                           + (sites[-1][1] if sites else 'harness'), tb=short_tb(e))
+        exp_en, exp_dis, exp_all = {}, {}, []
+        for rid, r in sorted(self.model.resps.items()):
+            if rid not in self.objs:
+                continue
+            key = 'OSC matched' if r.kind == 'match' else 'OSC unmatched'
+            if r.enabled:
+                exp_en.setdefault(key, []).append(rid)
+            elif not r.freed:
+                exp_dis.setdefault(key, []).append(rid)
+            if not r.freed:
+                exp_all.append(rid)
+        self.acc.count('listing_checks')
+        for name, got, exp in (('enabled', en, exp_en), ('disabled', dis, exp_dis),
+                               ('all', allp, exp_all)):
+            if got != exp:
+                self.violation(f'C18/listing/{name}-differs', when=when, got=got,
+                               expected=exp)
 
     # ------------------------------------------------------------ messages
     def _gen_message(self):
@@ -284,6 +423,11 @@ class HistoryRunner:
         else:
             addr = rng.choice(self.paths + [gen.rand_path(rng, 0.05)])
             args = gen.rand_args(rng)
+        if self.trace == 'hide' and not self.udp and rng.random() < 0.35:
+            addr = STATUS_REPLY
+        if addr == STATUS_REPLY and not self.udp and self.server_addr is not None \
+                and rng.random() < 0.6:
+            sender = tuple(self.server_addr)       # as if a server had sent it
         return addr, args, sender, port
 
     def send(self):
@@ -390,6 +534,7 @@ class HistoryRunner:
             self.violation('C18/message-not-delivered', missing=_j(pending),
                            res=res.witness())
         acc.count('raw_deliveries_checked', len(order))
+        self.check_trace(res, bool(injected))
         if not per_message:
             return
         # -- per message, in delivery order ---------------------------------
@@ -412,6 +557,53 @@ class HistoryRunner:
             self.violation('C18/invocation-for-unknown-message',
                            entries=_j([g[0][:4] for g in groups[:5]]))
         self.check_enabled_flags('after-dispatch')
+
+    def check_trace(self, res, injected):
+        """OscFunc.trace(flag, hide_status): while tracing every delivered
+        message is dumped once (INFO record of sc3.base.responders), with
+        hide_status except '/status.reply' messages from a server's address;
+        while not tracing nothing is dumped.  (Which responders fire never
+        depends on tracing: the dispatch model does not know about it.)"""
+        acc = self.acc
+        got = list(res.traced)
+        if self.trace == 'open' or injected:
+            acc.count('verdict_open/trace')
+            return
+        left = list(got)
+        for rmsg, rtime, raddr, rport in res.raw:
+            hidden = (self.trace == 'hide' and rmsg[0] == STATUS_REPLY
+                      and self.server_addr is not None
+                      and tuple(raddr) == tuple(self.server_addr))
+            hit = None
+            for k, text in enumerate(left):
+                if text.endswith(f'    msg: {rmsg}') and f'    time: {rtime}\n' in text \
+                        and f'    recv_port: {rport}\n' in text:
+                    hit = k
+                    break
+            if self.trace is None:
+                continue
+            if hidden:
+                acc.count('trace_status_replies_hidden')
+                if hit is not None:
+                    self.violation('C18/trace/status-reply-not-hidden', msg=_j(rmsg),
+                                   sender=list(raddr))
+                continue
+            if hit is None:
+                self.violation('C18/trace/message-not-dumped'
+                               + ('/status-reply-not-from-a-server'
+                                  if self.trace == 'hide' and rmsg[0] == STATUS_REPLY else ''),
+                               msg=_j(rmsg), sender=list(raddr), mode=self.trace,
+                               dumped=got[:4])
+            left.pop(hit)
+            acc.count('trace_dumps_checked')
+            if self.trace == 'hide' and rmsg[0] == STATUS_REPLY:
+                acc.count('trace_status_replies_shown_not_from_server')
+        if left:
+            self.violation('C18/trace/dumped-while-off' if self.trace is None
+                           else 'C18/trace/dumped-unknown-or-twice', mode=self.trace,
+                           dumped=left[:4])
+        if self.trace is None and res.raw:
+            acc.count('trace_off_checked')
 
     def check_message(self, tt, addr, args, res, entries):
         acc, m, feat = self.acc, self.model, self.feat
@@ -543,6 +735,7 @@ class HistoryRunner:
         for q in removed_now:
             rq = m.resps.get(q)
             if rq is not None and rq is not r and rq.kind == r.kind \
+                    and rq.disp == r.disp \
                     and rq.path == r.path and rq.enabled_at < r.enabled_at:
                 self.acc.count('missed_after_removal/' + r.kind)
                 return 'after-removal-during-dispatch'
@@ -560,7 +753,7 @@ class HistoryRunner:
         n_ops = rng.choice([rng.randint(4, 12), rng.randint(10, 30), rng.randint(20, 50)])
         weights = {'create': 5, 'msg': 11, 'disable': 1.2, 'enable': 1.5, 'free': 1,
                    'one_shot': 1.6, 'set_func': 1, 'cmd_period': 0.4, 'other_registry_run': 0.3, 'set_perm': 0.6,
-                   'arm': 1.6}
+                   'arm': 1.6, 'hard_run': 0.12, 'trace': 0.8, 'disp_free': 0.3}
         names, ws = zip(*weights.items())
         try:
             for _ in range(rng.randint(1, 4)):
@@ -575,6 +768,19 @@ class HistoryRunner:
                     self.send()
                 elif name == 'cmd_period':
                     self.top_op(('cmd_period',))
+                elif name == 'hard_run':
+                    self.top_op(('cmd_period', 'hard'))
+                elif name == 'trace':
+                    if self.trace is None and rng.random() < 0.8:
+                        self.top_op(('trace', True, rng.random() < 0.5))
+                    else:
+                        self.top_op(('trace', False, rng.random() < 0.5))
+                elif name == 'disp_free':
+                    idle = [k for k in sorted(self.disps)
+                            if not any(r.enabled and r.disp == k[1] and r.kind == k[0]
+                                       for r in m.resps.values())]
+                    if idle:
+                        self.top_op(('disp_free', rng.choice(idle)))
                 elif name == 'other_registry_run':
                     self.top_op(('other_registry_run', rng.choice(['StartUp', 'ShutDown'])))
                 elif not alive:
@@ -591,6 +797,7 @@ class HistoryRunner:
                         if rng.random() < 0.6:
                             op[1]['path'], op[1]['kind'] = h.path, h.kind
                             op[1].pop('path_arg', None)
+                            op[1]['disp'] = h.disp
                     elif k.endswith('-self'):
                         op = (k[:-5], h.rid)
                     else:
@@ -615,6 +822,10 @@ class HistoryRunner:
                 if not r.freed:
                     self.top_op(('free', r.rid))
             self.armed.clear()
+            if self.trace is not None:
+                self.top_op(('trace', False, False))
+            for k in sorted(self.disps):
+                self.top_op(('disp_free', k))
             for p in sorted({r.path for r in m.resps.values()}):
                 d = osc.enc_msg(p, 1, 2, 'hello')
                 self.log.append(['dgram', {'hex': d.hex(), 'epilogue': True}])
@@ -636,6 +847,11 @@ class HistoryRunner:
             # next history of this process
             self.rig.on_invoke = None
             self.armed.clear()
+            try:
+                from sc3.base.responders import OscFunc
+                OscFunc.trace(False)
+            except Exception:
+                pass
             for rid, obj in self.objs.items():
                 try:
                     obj.free()
@@ -673,6 +889,7 @@ def run(spec, acc, udp=False):
     from .model_dispatch import DispatchModel, selftest
     selftest(); gen.selftest(); osc.selftest()
     rig = Rig()
+    rig.sink_server()
     ports = []
     if not udp:
         for k in (0, 1):
